@@ -3,6 +3,7 @@
 min(available, requested) and never fail."""
 from .base import Result, RuleError
 from .facts import callee
+from .inline import inlined, views
 from .flow import (ExprBuilder, cfg_of, edge_conditions, relations_at, normalize_cmp, enumerate_paths, return_expr,
                    walk, fmt_expr, canon)
 
@@ -79,8 +80,12 @@ def field_writes(b, facts, fname):
     out = []
     for bi, blk in enumerate(b.blocks):
         for si, s in enumerate(blk["stmts"]):
-            if s["k"] == "assign" and s["pl"]["l"] == 1 and s["pl"]["p"] and isinstance(s["pl"]["p"][-1], dict) \
-                    and s["pl"]["p"][-1].get("n") == fname:
+            if s["k"] == "assign" and s["pl"]["p"] and isinstance(s["pl"]["p"][-1], dict) and s["pl"]["p"][-1].get("n") == fname:
+                if s["pl"]["l"] != 1:
+                    # (*x).field with x a copy of self (a helper method inlined into this view)
+                    base = canon(eb.place({"l": s["pl"]["l"], "p": s["pl"]["p"][:-1]}, (bi, si)))
+                    if base not in (("deref", ("param", 1)), ("param", 1)):
+                        continue
                 out.append((bi, si, eb.rvalue(s["rv"], (bi, si), 0)))
     return out
 
@@ -89,25 +94,35 @@ def check_limit_adapter(res, facts, trait, head, tname, inner_rem, chunk_m, adv_
     """Take (Buf) / Limit (BufMut): remaining = min(inner.remaining, limit); chunk truncated by
     min(chunk.len, limit); each inner consuming call with operand x is paired with limit -= x under x <= limit"""
     lim = self_field("limit")
+
+    def decide(key, b, probs_fn, how):
+        """judge the method as written; before reporting, judge the view with its crate-local helpers inlined"""
+        if b is None:
+            res.bad(key, "-", "method not found")
+            return
+        probs = probs_fn(b)
+        note = ""
+        if probs:
+            for ib in views(facts, b):
+                if not probs_fn(ib):
+                    probs, note = [], " (with helpers inlined)"
+                    break
+        if probs:
+            res.bad(key, b.loc(), "; ".join(probs))
+        else:
+            res.ok(key, b.loc(), how + note, nontrivial=True)
+
     # remaining
-    b = method_body(facts, trait, head, inner_rem)
-    key = "%s::%s" % (tname, inner_rem)
-    if b is None:
-        res.bad(key, "-", "method not found")
-    else:
+    def rem_probs(b):
         e = return_expr(b, facts, inline=False)
         if is_min_of(e, ucall_on(inner_rem, "inner"), lim):
-            res.ok(key, b.loc(), "min(inner.%s(), limit)" % inner_rem)
-        else:
-            res.bad(key, b.loc(), "is not min(inner.%s(), self.limit): %s" % (inner_rem, fmt_expr(e)))
+            return []
+        return ["is not min(inner.%s(), self.limit): %s" % (inner_rem, fmt_expr(e))]
+    decide("%s::%s" % (tname, inner_rem), method_body(facts, trait, head, inner_rem), rem_probs, "min(inner.%s(), limit)" % inner_rem)
+
     # chunk
-    b = method_body(facts, trait, head, chunk_m)
-    key = "%s::%s" % (tname, chunk_m)
-    if b is None:
-        res.bad(key, "-", "method not found")
-    else:
+    def chunk_probs(b):
         e = canon(return_expr(b, facts, inline=False))
-        ok = False
         e0 = strip_refs(e)
         if isinstance(e0, tuple) and e0[0] == "call" and e0[1].rsplit("::", 1)[-1] in ("index", "index_mut") and len(e0[2]) == 2:
             base, rng = e0[2]
@@ -115,23 +130,18 @@ def check_limit_adapter(res, facts, trait, head, tname, inner_rem, chunk_m, adv_
             if isch(strip_refs(base)) and isinstance(rng, tuple) and rng[0] == "agg" and "RangeTo" in str(rng[1]):
                 end = rng[2][0]
                 if is_min_of(end, len_of(isch), lim):
-                    ok = True
-        if ok:
-            res.ok(key, b.loc(), "inner.%s()[..min(len, limit)]" % chunk_m, nontrivial=True)
-        else:
-            res.bad(key, b.loc(), "chunk is not the inner chunk truncated to min(chunk.len(), self.limit): %s" % fmt_expr(e))
+                    return []
+        return ["chunk is not the inner chunk truncated to min(chunk.len(), self.limit): %s" % fmt_expr(e)]
+    decide("%s::%s" % (tname, chunk_m), method_body(facts, trait, head, chunk_m), chunk_probs, "inner.%s()[..min(len, limit)]" % chunk_m)
+
     # consuming methods
     for m in (adv_m,) + tuple(extra):
-        b = method_body(facts, trait, head, m)
-        key = "%s::%s" % (tname, m)
-        if b is None:
-            res.bad(key, "-", "method not found")
-            continue
-        probs = []
-        cs = [c for c in calls_in(b, facts) if c[1].get("trait") == trait and c[1]["name"] == m and self_field("inner")(strip_refs(c[2][0]))]
-        if len(cs) != 1:
-            probs.append("expected exactly one inner.%s call, found %d" % (m, len(cs)))
-        else:
+        def cons_probs(b, m=m):
+            probs = []
+            cs = [c for c in calls_in(b, facts) if c[1].get("trait") == trait and c[1]["name"] == m and self_field("inner")(strip_refs(canon(c[2][0])))]
+            if len(cs) != 1:
+                probs.append("expected exactly one inner.%s call, found %d" % (m, len(cs)))
+                return probs
             bi, fn, args, t = cs[0]
             x = canon(args[1])
             if x != ("param", 2):
@@ -159,10 +169,8 @@ def check_limit_adapter(res, facts, trait, head, tname, inner_rem, chunk_m, adv_
                     if (bi in path) != (wb in path):
                         probs.append("a returning path has inner.%s without the limit decrement (or vice versa)" % m)
                         break
-        if probs:
-            res.bad(key, b.loc(), "; ".join(probs))
-        else:
-            res.ok(key, b.loc(), "guard cnt <= limit; inner.%s(cnt); limit -= cnt on the same paths" % m, nontrivial=True)
+            return probs
+        decide("%s::%s" % (tname, m), method_body(facts, trait, head, m), cons_probs, "guard cnt <= limit; inner.%s(cnt); limit -= cnt on the same paths" % m)
     # accessors
     for acc, want in (("limit", "get"), ("set_limit", "set"), ("get_ref", "inner"), ("get_mut", "inner"), ("into_inner", "inner")):
         b = inherent_body(facts, head.split("<")[0], acc)
@@ -286,7 +294,8 @@ def check_chain(res, facts, trait, rem_m, has_m, touching):
 
 
 def mentions_dst(e):
-    for x in walk(canon(e)):
+    # the raw tree as well: a running sum kept in a loop variable is a phi, whose alternatives canon() hides
+    for x in list(walk(e)) + list(walk(canon(e))):
         if x == ("param", 2):
             return True
         if x[0] == "ucall" and x[1].endswith("chunks_vectored"):
